@@ -17,7 +17,7 @@ type gen struct {
 	s  *simrt.Sim
 	sp *spec
 
-	pool []netip.Prefix // prefix universe of the run
+	pool    []netip.Prefix // prefix universe of the run
 	nameSeq int
 }
 
